@@ -235,6 +235,54 @@ partial def parseSerde : Sexp → Option SerdeVal
     pure (.struct (← atomBytes? n) fs)
   | _ => none
 
+def optBytes? : Sexp → Option (Option Bytes)
+  | .atom "-" => some none
+  | x => (atomBytes? x).map some
+
+def ruleOf : String → Option RenameRule
+  | "none" => some .none | "lower" => some .lower | "upper" => some .upper | "pascal" => some .pascal
+  | "camel" => some .camel | "snake" => some .snake | "ssnake" => some .screamingSnake
+  | "kebab" => some .kebab | "skebab" => some .screamingKebab | _ => none
+
+partial def parseTy : Sexp → Option TyExpr
+  | .atom "bool" => some .bool | .atom "i8" => some .i8 | .atom "i16" => some .i16 | .atom "i32" => some .i32
+  | .atom "i64" => some .i64 | .atom "u8" => some .u8 | .atom "u16" => some .u16 | .atom "u32" => some .u32
+  | .atom "f32" => some .f32 | .atom "f64" => some .f64 | .atom "string" => some .string | .atom "char" => some .char
+  | .list [.atom "option", t] => (parseTy t).map .option
+  | .list [.atom "vec", t] => (parseTy t).map .vec
+  | .list [.atom "map", t] => (parseTy t).map .map
+  | .list [.atom "boxed", t] => (parseTy t).map .boxed
+  | .list [.atom "named", i] => (atomBytes? i).map .named
+  | _ => none
+
+def parseFieldDef : Sexp → Option FieldDef
+  | .list [.atom "field", ident, ty, rename, .atom skip, dflt, .list aliases, doc] => do
+    let d : Option Json ← (match dflt with | .atom "-" => some none | j => (parseJson j).map some)
+    pure { ident := (← atomBytes? ident), ty := (← parseTy ty), rename := (← optBytes? rename), skip := skip == "1",
+           default := d, aliases := (← aliases.mapM atomBytes?), doc := (← optBytes? doc) }
+  | _ => none
+
+def parseShape : Sexp → Option VariantShape
+  | .atom "unit" => some .unit
+  | .list (.atom "tuple" :: tys) => (tys.mapM parseTy).map .tuple
+  | .list (.atom "struct" :: fields) => (fields.mapM parseFieldDef).map .struct
+  | _ => none
+
+def parseVariantDef : Sexp → Option VariantDef
+  | .list [.atom "var", ident, rename, .atom skip, .atom dflt, shape] => do
+    pure { ident := (← atomBytes? ident), rename := (← optBytes? rename), skip := skip == "1", isDefault := dflt == "1",
+           shape := (← parseShape shape) }
+  | _ => none
+
+def parseTypeDef : Sexp → Option TypeDef
+  | .list [.atom "struct", ident, name, doc, .list aliases, .atom rule, .list (.atom "fields" :: fields)] => do
+    pure (.struct (← atomBytes? ident) (← atomBytes? name) (← optBytes? doc) (← aliases.mapM atomBytes?) (← ruleOf rule)
+            (← fields.mapM parseFieldDef))
+  | .list [.atom "enum", ident, name, doc, .list aliases, .atom rule, .atom rulef, .list (.atom "variants" :: vs)] => do
+    pure (.enum (← atomBytes? ident) (← atomBytes? name) (← optBytes? doc) (← aliases.mapM atomBytes?) (← ruleOf rule) (← ruleOf rulef)
+            (← vs.mapM parseVariantDef))
+  | _ => none
+
 /-- canonical text of a value: the same grammar the harness prints; map entries sorted by key. -/
 partial def showValue : Value → String
   | .null => "n"
